@@ -48,6 +48,8 @@ class Callback:
     """
 
     active: ClassVar[set[tuple[Callable | None, ...]]] = set()
+    # Callbacks activated globally with ``register``
+    _registered: ClassVar[set[tuple[Callable | None, ...]]] = set()
 
     def __init__(
         self, start=None, start_state=None, pretask=None, posttask=None, finish=None
@@ -69,17 +71,21 @@ class Callback:
         return tuple(getattr(self, i, None) for i in fields)
 
     def __enter__(self):
-        self._cm = add_callbacks(self)
-        self._cm.__enter__()
+        cm = add_callbacks(self)
+        cm.__enter__()
+        # One context per ``with`` so that the same object can be re-entered
+        self.__dict__.setdefault("_cms", []).append(cm)
         return self
 
     def __exit__(self, *args):
-        self._cm.__exit__(*args)
+        self._cms.pop().__exit__(*args)
 
     def register(self) -> None:
+        Callback._registered.add(self._callback)
         Callback.active.add(self._callback)
 
     def unregister(self) -> None:
+        Callback._registered.discard(self._callback)
         Callback.active.remove(self._callback)
 
 
@@ -135,11 +141,15 @@ class add_callbacks:
 
     def __init__(self, *callbacks):
         self.callbacks = [normalize_callback(c) for c in callbacks]
+        # Only deactivate on exit what this context itself activated, not
+        # callbacks kept active by an enclosing context or by ``register``
+        self._added = set(self.callbacks) - Callback.active
         Callback.active.update(self.callbacks)
 
     def __enter__(self):
         return
 
     def __exit__(self, type, value, traceback):
-        for c in self.callbacks:
-            Callback.active.discard(c)
+        for c in self._added:
+            if c not in Callback._registered:
+                Callback.active.discard(c)
